@@ -97,7 +97,7 @@ def stream_cap(ctx, built):
     lines, exp = [], []
     for _ in range(ctx.scale(40, 300)):
         lt, sing, rng_ = R.choice([1, 3, 3, 8, 20, 40]), R.choice([1, 5, 5, 12, 30]), R.choice([2, 15, 15, 25])
-        sd, gap = R.choice([0.0, 0.5, 1.0, 1.0, 1.5, 2.0, 3.0]), R.choice([0.0, 1.0, 2.0, 2.0, 3.5])
+        sd, gap = R.choice([0.0, 0.5, 1.0, 1.0, 1.5, 2.0, 3.0, 0.7, 0.9, 0.3, 1.3, 2.6]), R.choice([0.0, 1.0, 2.0, 2.0, 3.5, 2.5, 0.75])
         ap = AnonymizationParams(salt=b"capcheck", low_count_params=SuppressionParams(lt, sd, gap))
         bp = BucketizationParams(singularity_low_threshold=sing, range_low_threshold=rng_)
         df = pd.DataFrame({"a": [1, 2, 3]}); pids = pd.DataFrame({"id": [1, 2, 3]})
